@@ -895,6 +895,50 @@ def _doc_with_stream(attrs, payload):
     return pdfgen.build(objs)
 
 
+# ------------------------------------------------------------------------------------------ H4 page trees whose /Kids share nodes or point back (work must stay proportional)
+GRAPH_SHAPES = [("chain-dup", 28, 2), ("chain-dup", 18, 3), ("chain-dup", 6, 2), ("diamond", 24, 2), ("diamond", 12, 3), ("clique", 11, 0), ("clique", 6, 0), ("back-edges", 20, 0)]
+
+
+def pagegraph_doc(shape, n, k):
+    """a page tree of n /Pages nodes over one leaf page, damaged so that nodes are reachable along many paths: every node lists its only child k times (chain-dup); layers of k nodes that each
+    list every node of the next layer (diamond); n nodes that all list each other (clique); a chain where every node also lists all its ancestors (back-edges)"""
+    objs = {1: {"Type": "Catalog", "Pages": Ref(10)}, 3: {"Type": "Font", "Subtype": "Type1", "BaseFont": "Helvetica"},
+            4: {"Type": "Page", "Parent": Ref(10), "MediaBox": [0, 0, 200, 200], "Contents": Ref(5), "Resources": {"Font": {"F1": Ref(3)}}}, 5: Stream({}, b"BT /F1 10 Tf 10 100 Td (Hello) Tj ET")}
+    leaf = Ref(4)
+    if shape == "chain-dup":
+        for i in range(n):
+            objs[10 + i] = {"Type": "Pages", "Kids": [Ref(10 + i + 1) if i + 1 < n else leaf] * k, "Count": 1}
+    elif shape == "diamond":
+        ids = [[10 + i * k + j for j in range(k)] for i in range(n)]
+        ids[0] = [10]
+        for i in range(n):
+            for x in ids[i]:
+                objs[x] = {"Type": "Pages", "Kids": [Ref(y) for y in ids[i + 1]] if i + 1 < n else [leaf], "Count": 1}
+    elif shape == "clique":
+        for i in range(n):
+            objs[10 + i] = {"Type": "Pages", "Kids": [Ref(10 + j) for j in range(n) if j != i] + [leaf], "Count": 1}
+    else:
+        for i in range(n):
+            objs[10 + i] = {"Type": "Pages", "Kids": [Ref(10 + j) for j in range(i + 1)] + [Ref(10 + i + 1) if i + 1 < n else leaf], "Count": 1}
+    return pdfgen.build(objs)
+
+
+def h4_pagegraph(timeout=200, part=None, **kw):
+    from pdfminer import high_level
+
+    def fn(ex):
+        si = ex.choice(len(GRAPH_SHAPES), "shape")
+        entry = ENTRIES[ex.choice(2, "entry") * 3]            # extract_text / extract_pages
+        shape, n, k = GRAPH_SHAPES[si]
+        r = run_extract(pagegraph_doc(shape, n, k), entry=entry)
+        ex.require(r is None, "page tree %s (%d nodes, multiplicity %d; a %d-byte document): %s" % (shape, n, k, len(pagegraph_doc(shape, n, k)), r), si=si, entry=entry)
+
+    def conc(m, info):
+        return {"what": "pagegraph", "si": info["si"], "entry": info["entry"]}
+    from pdfminer.pdfpage import PDFPage
+    return core.run_symx("H4_faults", fn, [PDFPage.create_pages, high_level.extract_text], {"page trees": [str(x) for x in GRAPH_SHAPES], "work bound": "5 s alarm, 2 GiB address-space allowance"}, timeout, concretize=conc, part=part)
+
+
 def replay(harness, inp):
     import pdfminer.pdftypes as pt
     if harness == "H1_accessors":
@@ -987,6 +1031,10 @@ def replay(harness, inp):
         data, desc = fontfile_fault(inp["kind"], inp["mode"], inp["pos"], inp["v"])
         r = run_extract(fontfile_doc(inp["kind"], data))
         return None if r is None else "%s (%s): %s" % (desc, data.hex(), r)
+    if what == "pagegraph":
+        shape, n, k = GRAPH_SHAPES[inp["si"]]
+        r = run_extract(pagegraph_doc(shape, n, k), entry=inp["entry"])
+        return None if r is None else "page tree %s (%d nodes, multiplicity %d): %s" % (shape, n, k, r)
     if what == "huge":
         where, site = HUGE_SITES[inp["i"]]
         r = run_extract(huge_doc(where, site, HUGE[inp["j"]]), entry=inp.get("entry", "text"))
@@ -1043,6 +1091,7 @@ def jobs(tier):
         J.append(Job("H4_objstm:%d" % k, "h4_objstm", {"part": [k, 2, 5]}, 300, "H4_faults"))
     J.append(Job("H4_encrypt", "h4_encrypt", {}, 300, "H4_faults"))
     J.append(Job("H4_huge", "h4_huge", {}, 300, "H4_faults"))
+    J.append(Job("H4_pagegraph", "h4_pagegraph", {}, 300, "H4_faults"))
     J.append(Job("H5_cmap", "h5_cmap", {}, 300, "H5_content"))
     for k in range(2):
         J.append(Job("H5_fontfile:%d" % k, "h5_fontfile", {"part": [k, 2, 4]}, 300, "H5_content"))
